@@ -36,7 +36,7 @@ def gen_cases(ctx):
     rng = ctx.rng
     hi = 8 if ctx.tier == "quick" else 11
     for i in range(ctx.scale(1200, 60000)):
-        cls = rng.choice(gen.POSITIVE_CLASSES + ["classic", "flexible"])
+        cls = rng.choice(gen.POSITIVE_CLASSES + ["classic", "flexible", "fractional"])
         inst = gen.gen_instance(rng, cls, max_jobs=rng.choice([2, 3, 4]),
                                 max_machines=rng.choice([2, 3, 4]),
                                 max_ops=rng.randint(4, hi))
